@@ -14,9 +14,12 @@ CHECKS = {
         "CrossHair/z3 symbolic execution of the real DirectedGraph and link/instantiate code: exhaustive path trees over symbolic node labels and link bits",
         "Bounded symbolic model checking of the real code. Kernel: DirectedGraph.add_edge/get_topological_order run on k edges whose 2k "
         "node labels are unconstrained z3 integers; CrossHair's path tree (exhausted) is exactly the set of equality patterns, i.e. every "
-        "graph with <= k edges (k=3 quick, 4 thorough) in every insertion order, judged against Kahn's algorithm. End to end: three class "
+        "graph with <= k edges (k=3 quick, 4 thorough) in every insertion order, judged against Kahn's algorithm; in addition every directed "
+        "graph without self loops on 4 concrete nodes (one solver bit per ordered pair, three insertion orders; 5 nodes = 2^20 graphs in the "
+        "thorough tier). End to end: three class "
         "groups, all 64 subsets of the six possible instantiate-links chosen by solver bits, symbolic int parameters, real "
-        "link_arguments/parse_object/instantiate_classes, constructor log checked for order, exactly-once and parameter feeding.",
+        "link_arguments/parse_object/instantiate_classes, constructor log checked for order, exactly-once and parameter feeding; nested targets "
+        "one and two levels below a component added before/between/after the plain links; self links; None-valued source attributes.",
         "Trusted: CrossHair 0.0.110's interception of ==/list.index/in on symbolic ints and z3; format() of symbolic numbers stubbed to a "
         "placeholder. Outside the bound: graphs with more edges, more than three components, subclass-typed (class_path) components.",
         "DESIGN.md §4 C16",
@@ -62,8 +65,10 @@ CHECKS["C01"] = (
     "or json.dumps output is read back as the same type; sat models are replayed through parse_object/dump/parse_string/save/parse_path. "
     "Adapter layer: for 17 parser shapes (scalars, unions, lists, dicts, tuples, set/literal/enum, restricted, registered, dataclasses, "
     "subclass specs incl. defaults, groups, subcommands, class groups) CrossHair exhausts parse_object -> dump (dict captured before "
-    "the text) -> parse_object with symbolic leaves, kinds and lengths, with skip_default off and on. Thorough adds end-to-end runs "
-    "through the real text (three formats, --print_config, save/parse_path) on solver-chosen concrete leaves.",
+    "the text) -> parse_object with symbolic leaves, kinds and lengths, with skip_default off and on. Through the real text (three "
+    "formats, --print_config, save/parse_path; solver-chosen concrete inputs): registered types, and 30 strings whose characters stress "
+    "emitters and scanners (non-BMP, control, YAML indicators) at five positions; skip_default dumps before/after the parser's defaults "
+    "change. Thorough runs the real-text route for every shape.",
     "Trusted: quoted scalars load as str, dict/list structure survives the text round trip (PyYAML/json), the regular models of "
     "representer outputs (validated by sampling each run), CrossHair/z3, floats as reals. Outside: yaml_comments/toml/jsonnet formats, "
     "multi-line strings, symbolic strings in the adapter layer (menu only).",
@@ -79,10 +84,13 @@ CHECKS["C03"] = (
     "file, env config, default config file, typed option values, env variable) in both exit_on_error modes, and only ArgumentError / "
     "exit status 2 with usage+error on stderr may leave the call. A CrossHair harness then injects, at yaml.load, a solver-chosen fault "
     "(YAMLError, ValueError, non-dict return values) at a solver-chosen entry point and mode; a leaking fault is reported only through "
-    "its concrete witness on the unmodified loader. A fixed battery holds the document-structure/argv cases named in the property.",
+    "its concrete witness on the unmodified loader. Two solver-enumerated grids run concretely: ill-formed values x 23 typed options x 14 "
+    "channels (incl. subcommand channels, a prior class spec, --print_config, loaded objects) and malformed option names / config keys "
+    "(12 bases x 22 suffixes x prefixes x value forms x 7 channels); a fixed battery holds the document-structure cases (deep nesting, "
+    "aliases, parse_path of missing/non-text files, NUL bytes, scalar subcommand sections, broken default config files).",
     "Trusted: the candidate fail languages of the int/float constructors (validated by solver-generated samples each run). Outside: argv "
-    "grammars as symbolic input (strings are consumed by argparse concretely), parser modes other than yaml, ints beyond 4300 digits "
-    "except one battery case.",
+    "items as symbolic strings (option names and values are solver-chosen members of finite grammars, run concretely), parser modes other "
+    "than yaml, ints beyond 4300 digits except one battery case.",
     "DESIGN.md §4 C03",
 )
 CHECKS["C05"] = (
@@ -92,7 +100,8 @@ CHECKS["C05"] = (
     "any length that the yaml-mode and omegaconf-mode resolver tables (read from the live loaders) give every JSON literal its JSON type, "
     "so a JSON document is read identically under the yaml, json and omegaconf modes. E-CH: for 12 parser shapes the same symbolic "
     "settings are parsed as nested dict, as flat dict with dotted keys and as Namespace (path trees exhausted); solver-chosen concrete "
-    "settings are additionally rendered as argv options, --cfg string, parse_string under three parser modes and environment variables; "
+    "settings are additionally rendered as argv options, --cfg string, parse_string under three parser modes, environment variables, and "
+    "environment variables after the parser's env_prefix was reassigned; "
     "all channels must agree on accept/reject and on the result, type for type.",
     "Trusted: json mode as the reference reading of a JSON document, PyYAML/json scanners for strings, CrossHair/z3. Outside: jsonnet/toml "
     "modes, JSON string escapes, strings at non-str positions, null at non-Optional positions (undecided in the docs).",
@@ -138,7 +147,8 @@ CHECKS["C10"] = (
     "exhausted): every configuration returned by parse_object validates, parses again as an object to an equal configuration type "
     "for type, and the dict that dump serialises is a normal form (dumping the re-parsed dump gives the same dict). Kernel: "
     "adapt_typehints applied twice equals once, and serialise->deserialise returns the adapted value, on 20 type hints of the C02 "
-    "grammar. Thorough: byte identity dump(parse_string(dump(cfg))) == dump(cfg) through the real text in three formats on "
+    "grammar. The command line as the channel: 16 argv forms (class choices incl. a class without parameters, sub-options, appends, "
+    "Optional[dataclass] options) on three kinds of default, with validate / parse_object / dump-parse-dump byte identity. Thorough: byte identity dump(parse_string(dump(cfg))) == dump(cfg) through the real text in three formats on "
     "solver-chosen concrete leaves.",
     "Trusted: CrossHair/z3, floats as reals, the text stub (dict captured before serialisation) in the quick tier. Outside: byte "
     "identity for all values, Path types, str leaves beyond the menus.",
@@ -206,8 +216,9 @@ CHECKS["C15"] = (
 CHECKS["C09"] = (
     "E-CH",
     "CrossHair/z3 exhaustive exploration of operation histories on a reused real parser (symbolic ints in the object operation), each step compared with the same operation on a fresh parser and with its outcome in a pristine process",
-    "Bounded model checking of the real parser over its history. The history is the solver's input: an integer picks one of 16 "
-    "operations (18 thorough: successful and failing parse_args, --help, --print_config, --print_config followed by an invalid option at "
+    "Bounded model checking of the real parser over its history. The history is the solver's input: an integer picks one of 25 "
+    "operations (27 thorough; class changes through parse_string / parse_env / defaults=False on an argument whose default is a class spec, "
+    "a failure inside a --cfg text after a class was chosen, init_args without a class; successful and failing parse_args, --help, --print_config, --print_config followed by an invalid option at "
     "top level and inside a subcommand, --cfg texts holding sections for two subcommands with and without an explicit choice, "
     "parse_object ok/failing with symbolic ints, parse_string, parse_env, get_defaults, dump, validate, instantiate_classes) at each "
     "of k <= 2 steps (k = 3 over 10 operations in the thorough tier) on a parser with required subcommands, config arguments at both "
